@@ -83,6 +83,7 @@ Definition altitude_value (m : list N) (code : option N) : res (option N) :=
   | Some code =>
       if N.land code 2 =? 0 then
         if N.land code 1 =? 0 then
+          if N.shiftr code 2 =? 0 then Ok None else
           '(high, low) <- graytobin m ;;
           let value := high * 500 + low * 100 in
           if 1200 <=? value then Ok (Some (value - 1200)) else Ok None
